@@ -144,6 +144,11 @@ func init() {
 				o.WReload = 8
 				o.FailProb = 0
 			}
+			if c.Idx%16 == 13 {
+				// an embedder whose constructor context ends while the runner is in use (set-up function with a deferred
+				// cancel, timeout context): the runner works until Shutdown, queued and delayed jobs still get their turn
+				o.EndCtxAt = 2 + c.Idx%9
+			}
 			if c.Idx%8 == 6 {
 				// saves with retention must not lose or strand waiting jobs
 				o.StoreDir = c.TmpDir
